@@ -126,7 +126,8 @@ def tau (s : St) : List St :=
   -- Close: c.CloseSession(ctx); `c.mcancel()` — before `c.setState(ctx, Closed)`
   (if s.cl == .begun && !s.cancelled then [{ s with cancelled := true }] else []) ++
   -- the environment: the live connection is lost / the channel reports an error (dispatcher → c.sechanErr)
-  (if s.mpc == .wait && !s.faulted then [{ s with faulted := true }] else []) ++
+  -- (also between the report of Connected and the drain at the end of the reconnect round: `done`)
+  (if (s.mpc == .wait || s.mpc == .done) && !s.faulted then [{ s with faulted := true }] else []) ++
   (match s.upc with
    -- c.Dial(ctx) failed before a secure channel existed / failed at OpenSecureChannel (the dead channel's
    -- dispatcher leaves its error in c.sechanErr) / succeeded (Dial drains c.sechanErr before it creates the channel)
